@@ -134,7 +134,6 @@ def _guarded_execute(mach, run, props, timeout_s):
 
 def work_chunk(args):
     machine, prop, tier, verif_seed, start, count, run_timeout = args
-    faulthandler.dump_traceback_later(max(600, run_timeout * 4), exit=True)
     mach = get_machine(machine)
     agg = {
         "start": start, "count": count, "runs": 0, "nops": 0, "sim_steps": 0,
@@ -146,6 +145,9 @@ def work_chunk(args):
         "harness_errors": [], "samples": [], "digest": hashlib.sha256(), "hang": False,
     }
     for index in range(start, start + count):
+        # last line of defence against a worker that neither finishes nor reacts to the watchdog: re-armed for every
+        # run (plain, traced re-run and stuck verdict together take at most 8 watchdog periods)
+        faulthandler.dump_traceback_later(run_timeout * 10 + 600, exit=True)
         rng = random.Random(run_seed(verif_seed, machine, prop, tier, index))
         try:
             run = mach.generate(rng, tier, prop)
